@@ -1,5 +1,6 @@
 import Typegen.Heck
 import Typegen.Names
+import Typegen.TablesExpected
 /-! # C04 — the object passed to invoke has exactly the keys Tauri deserialises (naming half)
 
 Tauri's command macro converts each Rust parameter name with `heck`'s `to_lower_camel_case`; the tool
@@ -80,5 +81,10 @@ theorem K15b_fixed_witness :
     applyField .camel cl!"__" = none ∧ computeName cl!"__" none none cl!"camelCase" = cl!"__" ∧
     applyField .camel cl!"über" = none ∧ computeName cl!"über" none none cl!"camelCase" = cl!"über" := by
   decide +kernel
+
+
+/-- the literals of `is_tauri_parameter_type` (which parameters are framework-injected), re-read from the source on
+    this run, are the ones `An.isTauriParamType` was written against -/
+theorem C04_source_table_injected_types : Exp.litsOf "is_tauri_parameter_type" = Exp.isTauriParameterType := by decide
 
 end TG.C04
